@@ -13,6 +13,12 @@ def drop_findings(ck, a, rule):
             ck.finding(rule, r.site[0], key,
                        f"{short(r.site[0])}: storage buffer ({origin_str(origin)}) still owned by `{place}` is dropped (leak)", r.site,
                        {'partition': [list(x) for x in (part or ())], 'context': [f"{short(c[0])}@bb{c[1]}" for c in r.ctx]})
+    for r in a.events('escape'):
+        _, owned, callee, part = r.data[:4]
+        n += 1
+        ck.finding(rule, r.site[0], f"escape:{callee}",
+                   f"{short(r.site[0])}: a storage buffer ({origin_str(owned[0][2] if len(owned[0]) > 2 else None)}) is handed by value to {callee}, "
+                   "for which the checker has no ownership summary: conservation not shown", r.site)
     return n
 
 
